@@ -40,6 +40,31 @@ M = [
      "                    for c in soft_constraint_l:\n                        btor.Assume(c[1])\n                        \n                        if self.solve_info is not None:",
      "                    raise SolveFailure('solve failure', 'soft')\n                    for c in soft_constraint_l:\n                        btor.Assume(c[1])\n                        \n                        if self.solve_info is not None:",
      ["C05"]),
+    ("soft_sort_ascending", "src/vsc/model/randomizer.py",
+     "soft_constraint_l.sort(key=lambda c:c[0].priority, reverse=True)", "soft_constraint_l.sort(key=lambda c:c[0].priority)", ["C05"]),
+    ("soft_failed_asserted", "src/vsc/model/randomizer.py",
+     "                        if btor.Sat() == btor.SAT:\n                            if self.debug > 0:\n                                print(\"Note: soft constraint %s (%d) passed\" % (",
+     "                        if True:\n                            if self.debug > 0:\n                                print(\"Note: soft constraint %s (%d) passed\" % (", ["C05"]),
+    ("soft_guard_dropped", "src/vsc/model/rand_info_builder.py",
+     "            soft_implies = ConstraintImpliesModel(and_cond, [c])", "            soft_implies = ConstraintImpliesModel(ExprLiteralModel(1, False, 1), [c])", ["C05"]),
+    ("soft_priority_not_cleared", "src/vsc/model/randomizer.py",
+     "        for f in field_model_l:\n            f.set_used_rand(True, 0)\n            clear_soft_priority.clear(f)",
+     "        for f in field_model_l:\n            f.set_used_rand(True, 0)", ["C05"]),
+    ("soft_else_guard_not_negated", "src/vsc/model/rand_info_builder.py",
+     "            self._soft_cond_l[-1] = ExprUnaryModel(UnaryExprType.Not, c.cond)", "            pass", ["C05"]),
+    ("foreach_unroll_short", "src/vsc/visitors/array_constraint_builder.py",
+     "            for i in range(len(fm.field_l)):\n                f.index.set_val(i)", "            for i in range(max(0, len(fm.field_l)-1)):\n                f.index.set_val(i)", ["C04"]),
+    ("list_len_is_model_len", "src/vsc/types.py",
+     "            return int(model.size.get_val())", "            return len(model.field_l)", ["C04"]),
+    ("list_append_no_mask", "src/vsc/types.py",
+     "            mask_v = int(v) & self.mask", "            mask_v = int(v)", ["C04", "C18"]),
+    ("list_clear_keeps_size", "src/vsc/model/field_array_model.py",
+     "    def clear(self):\n        self.field_l.clear()\n        self._set_size(0)", "    def clear(self):\n        self.field_l.clear()", ["C04"]),
+    ("unique_list_skips_first", "src/vsc/model/constraint_unique_model.py",
+     "        for f in l.field_l:\n            unique_l.append(ExprFieldRefModel(f))", "        for f in l.field_l[1:]:\n            unique_l.append(ExprFieldRefModel(f))", ["C04"]),
+    ("sum_skips_last", "src/vsc/model/field_array_model.py",
+     "            for i in range(int(self.size.get_val())):\n                f = self.field_l[i]\n                ret = ExprBinModel(\n                    ret,\n                    BinExprType.Add,",
+     "            for i in range(max(0, int(self.size.get_val())-1)):\n                f = self.field_l[i]\n                ret = ExprBinModel(\n                    ret,\n                    BinExprType.Add,", ["C04"]),
     ("unsat_returns", "src/vsc/model/randomizer.py",
      "            if btor.Sat() != btor.SAT:\n                # If the system doesn't solve with hard constraints added,",
      "            if btor.Sat() != btor.SAT and len(constraint_l) > 3:\n                # If the system doesn't solve with hard constraints added,",
